@@ -73,4 +73,23 @@ theorem gen_doipRoutingActivationType_eq (refs : List Inst) (p : Option Gen.Prot
   rw [gen_getComparam_eq]
   rfl
 
+/-- **Tie.** `get_can_baudrate` for every `comparam_refs` and `protocol` argument: the model's `viaGuardedValue` (a complex value is
+    answered with `None` before `get_value()` could raise) -/
+theorem gen_canBaudrate_eq (refs : List Inst) (p : Option Gen.ProtoArg) :
+    toRes (Gen.getCanBaudrateE refs p) = viaGuardedValue (getComparamIn refs "CP_Baudrate" (protoName p)) := by
+  unfold Gen.getCanBaudrateE
+  rw [gen_getComparam_eq]
+  cases getComparamIn refs "CP_Baudrate" (protoName p) with
+  | none => rfl
+  | some c =>
+    simp only [viaGuardedValue, intRes, Gen.pyIntE, Py.unwrapAttr, Py.call, reduceCtorEq, if_false, bind, Except.bind, pure, Except.pure]
+    cases hs : c.value.isStr
+    · rfl
+    · simp only [Bool.not_true, Bool.false_eq_true, not_true_eq_false, if_false]
+      cases hv : getValue c with
+      | error e => cases e <;> rfl
+      | ok s =>
+        simp only
+        cases hp : pyInt s <;> rfl
+
 end OdxVerif.Comparam
